@@ -136,7 +136,11 @@ def bitwidth(repo: Repo, rep: Report) -> Optional[int]:
         if isinstance(e, ast.Constant) and isinstance(e.value, int) and e.value >= 0:
             return e.value.bit_length()
         if isinstance(e, ast.Name):
-            return env.get(e.id, BIG)
+            if e.id in env:
+                return env[e.id]
+            if e.id in consts:
+                return consts[e.id]
+            return BIG
         if isinstance(e, ast.Attribute) and isinstance(e.value, ast.Name) and e.value.id == "self":
             return env.get("self." + e.attr, BIG)
         if isinstance(e, ast.BinOp):
@@ -156,10 +160,39 @@ def bitwidth(repo: Repo, rep: Report) -> Optional[int]:
             return BIG
         return BIG
 
+    # module-level non-negative integer constants (a named mask) are read through
+    consts: Dict[str, int] = {}
+    for st in mod.tree.body:
+        if isinstance(st, ast.Assign) and len(st.targets) == 1 and isinstance(st.targets[0], ast.Name):
+            try:
+                v = fde.Evaluator().eval(st.value, {})
+            except Exception:
+                continue
+            if isinstance(v, int) and not isinstance(v, bool) and v >= 0:
+                consts[st.targets[0].id] = v.bit_length()
+
+    def assign(st: ast.Assign, env: Dict[str, int]) -> bool:
+        """width transfer of one assignment (plain or simultaneous tuple form); False if outside the vocabulary"""
+        t = st.targets[0]
+        pairs: List[Tuple[ast.AST, ast.AST]]
+        if isinstance(t, ast.Tuple) and isinstance(st.value, ast.Tuple) and len(t.elts) == len(st.value.elts):
+            pairs = list(zip(t.elts, st.value.elts))
+        else:
+            pairs = [(t, st.value)]
+        ws = [width(v, env) for _t, v in pairs]  # right-hand sides first: the tuple form is simultaneous
+        for (tt, _v), w_ in zip(pairs, ws):
+            if isinstance(tt, ast.Attribute) and isinstance(tt.value, ast.Name) and tt.value.id == "self":
+                env["self." + tt.attr] = w_
+            elif isinstance(tt, ast.Name):
+                env[tt.id] = w_
+            else:
+                return False
+        return True
+
     env: Dict[str, int] = {"seed": BIG}
     for st in init.body:
-        if isinstance(st, ast.Assign) and isinstance(st.targets[0], ast.Attribute):
-            env["self." + st.targets[0].attr] = width(st.value, env)
+        if isinstance(st, ast.Assign):
+            assign(st, env)
     state = {k: v for k, v in env.items() if k.startswith("self.")}
     if not state or max(state.values()) >= BIG:
         rep.undecide("RNG-4", f"initial state widths unknown: {state}")
@@ -170,12 +203,9 @@ def bitwidth(repo: Repo, rep: Report) -> Optional[int]:
     ret_w = None
     for st in nxt.body:
         if isinstance(st, ast.Assign):
-            t = st.targets[0]
-            w_ = width(st.value, env2)
-            if isinstance(t, ast.Attribute):
-                env2["self." + t.attr] = w_
-            elif isinstance(t, ast.Name):
-                env2[t.id] = w_
+            if not assign(st, env2):
+                rep.undecide("RNG-4", f"assignment outside the bit-width vocabulary: {short(st)}")
+                return None
         elif isinstance(st, ast.Return) and st.value is not None:
             ret_w = width(st.value, env2)
         elif isinstance(st, ast.Expr) and isinstance(st.value, ast.Constant):
